@@ -1,10 +1,10 @@
 package main
 
 import (
-	"hash/fnv"
 	"bufio"
 	"encoding/json"
 	"fmt"
+	"hash/fnv"
 	"math/rand"
 	"os"
 	"os/exec"
@@ -74,17 +74,17 @@ type knownFile struct {
 }
 
 type proofStatus struct {
-	Obligations int      `json:"obligations"`
-	Discharged  int      `json:"discharged"`
-	CheckerCmd  string   `json:"checker_cmd"`
-	TrustedBase []string `json:"trusted_base"`
-	Theorems    []string `json:"theorems"`
-	Broken      []string `json:"broken"`       // theorems / build targets that no longer check
-	BuildLog    string   `json:"build_log"`    // tail of the lake output when broken
-	DriverOK    bool     `json:"driver_ok"`    // the model driver could be built
-	GenChanged  []string `json:"gen_changed"`  // regenerated files that differ from the committed reference
+	Obligations int                 `json:"obligations"`
+	Discharged  int                 `json:"discharged"`
+	CheckerCmd  string              `json:"checker_cmd"`
+	TrustedBase []string            `json:"trusted_base"`
+	Theorems    []string            `json:"theorems"`
+	Broken      []string            `json:"broken"`      // theorems / build targets that no longer check
+	BuildLog    string              `json:"build_log"`   // tail of the lake output when broken
+	DriverOK    bool                `json:"driver_ok"`   // the model driver could be built
+	GenChanged  []string            `json:"gen_changed"` // regenerated files that differ from the committed reference
 	Axioms      map[string][]string `json:"axioms"`
-	LeanWallS   float64  `json:"lean_wall_s"`
+	LeanWallS   float64             `json:"lean_wall_s"`
 }
 
 type replay struct {
@@ -583,17 +583,17 @@ func runProp(cfg runConfig) int {
 		}
 	}
 	cov := map[string]interface{}{
-		"obligations":         proof.Obligations,
-		"discharged":          proof.Discharged,
-		"checker_cmd":         proof.CheckerCmd,
-		"trusted_base":        proof.TrustedBase,
-		"theorems":            proof.Theorems,
-		"axioms":              proof.Axioms,
-		"broken":              proof.Broken,
-		"evaluations":         nCases,
-		"distinct_nontrivial": nNontrivial,
-		"rule":                p.Rule,
-		"samples":             samples,
+		"obligations":                   proof.Obligations,
+		"discharged":                    proof.Discharged,
+		"checker_cmd":                   proof.CheckerCmd,
+		"trusted_base":                  proof.TrustedBase,
+		"theorems":                      proof.Theorems,
+		"axioms":                        proof.Axioms,
+		"broken":                        proof.Broken,
+		"evaluations":                   nCases,
+		"distinct_nontrivial":           nNontrivial,
+		"rule":                          p.Rule,
+		"samples":                       samples,
 		"traces_validated_against_impl": nModel,
 		"model_vs_impl_disagreements":   nDiverge,
 		"oracle_failures":               nOracleFails,
